@@ -24,8 +24,9 @@ of `C06.RawLex`; `st` any settings, except where a theorem is about the chart of
 which needs the initial chart to be ancestor-closed as `Settings.ofConfig` builds it).
 
 Reports are computed from a *selection* of the loaded transactions (`TxnData::filter`), so the report theorems are
-stated for `ts.filter tf` with an arbitrary transaction filter `tf`; `tf := fun _ => true` is the whole journal
-(`filter_all`).  The settings a report kernel runs with (`sb`) are arbitrary wherever the per-stage theorem allows it.
+stated for any list `txns` of transactions taken from the loaded ones (`hsel : ∀ t ∈ txns, t ∈ ts`): the whole
+journal (`sel_all`), what a transaction filter keeps (`sel_filter`), the members of a balance group, ….  The settings
+a report kernel runs with (`sb`) are arbitrary wherever the per-stage theorem allows it.
 
 | strengthens | theorem | composed from |
 |---|---|---|
@@ -87,7 +88,12 @@ theorem load_of_acceptText (cfg : Time.TsCfg) (st st' : Settings) (text : List C
 
 theorem mem_sortTxns (acc : List Txn) (t : Txn) : t ∈ sortTxns acc ↔ t ∈ acc := (sortTxns_perm acc).mem_iff
 
-theorem filter_all (ts : List Txn) : ts.filter (fun _ => true) = ts := by simp
+/-- the whole journal is a selection of itself … -/
+theorem sel_all (ts : List Txn) : ∀ t ∈ ts, t ∈ ts := fun _ h => h
+
+/-- … and so is what a transaction filter keeps (`TxnData::filter`) -/
+theorem sel_filter (ts : List Txn) (tf : Txn → Bool) : ∀ t ∈ ts.filter tf, t ∈ ts :=
+  fun _ ht => (List.mem_filter.mp ht).1
 
 theorem mem_postsOf (txns : List Txn) (p : BPost) :
     p ∈ postsOf txns ↔ ∃ t ∈ txns, ∃ q ∈ t.posts, p = ⟨q.acct, q.comm, q.amount⟩ := by
@@ -171,25 +177,24 @@ theorem text_postsWF (cfg : Time.TsCfg) (st st' : Settings) (text : List Char) (
   exact hsc t ht q hq
 
 /-- … and so does the posting stream of every selection of its transactions -/
-theorem text_postsWF_filter (cfg : Time.TsCfg) (st st' : Settings) (text : List Char) (ts : List Txn)
-    (h : loadText cfg st text = .ok (ts, st')) (tf : Txn → Bool) : C02.PostsWF (postsOf (ts.filter tf)) :=
-  C13.postsWF_subset (text_postsWF cfg st st' text ts h)
-    (C13.postsOf_subset (fun _ ht => (List.mem_filter.mp ht).1))
+theorem text_postsWF_sel (cfg : Time.TsCfg) (st st' : Settings) (text : List Char) (ts : List Txn)
+    (h : loadText cfg st text = .ok (ts, st')) (txns : List Txn) (hsel : ∀ t ∈ txns, t ∈ ts) :
+    C02.PostsWF (postsOf txns) :=
+  C13.postsWF_subset (text_postsWF cfg st st' text ts h) (C13.postsOf_subset hsel)
 
-/-- **C02 end to end — `text_balance_exact`.**  For the transactions a filter selects from a loaded text, whenever
-    the balance kernel answers (with whatever settings), its rows are exactly the posted (commodity, account) pairs
-    and their proper ancestors, each once, strictly sorted by (commodity, account name); every row's account sum is
-    the exact sum of the postings to its pair and its tree sum the exact sum of the postings at or below it.
-    No `PostsWF` hypothesis: the text loaded. -/
+/-- **C02 end to end — `text_balance_exact`.**  For any selection `txns` of the transactions of a loaded text,
+    whenever the balance kernel answers (with whatever settings), its rows are exactly the posted (commodity,
+    account) pairs and their proper ancestors, each once, strictly sorted by (commodity, account name); every row's
+    account sum is the exact sum of the postings to its pair and its tree sum the exact sum of the postings at or
+    below it.  No `PostsWF` hypothesis: the text loaded. -/
 theorem text_balance_exact (cfg : Time.TsCfg) (st st' : Settings) (text : List Char) (ts : List Txn)
-    (h : loadText cfg st text = .ok (ts, st')) (tf : Txn → Bool) (sb : Settings) (bal : List BalRow)
-    (hb : balance sb (postsOf (ts.filter tf)) = .ok bal) :
+    (h : loadText cfg st text = .ok (ts, st')) (txns : List Txn) (hsel : ∀ t ∈ txns, t ∈ ts)
+    (sb : Settings) (bal : List BalRow) (hb : balance sb (postsOf txns) = .ok bal) :
     (bal.map (·.key)).Pairwise (fun a b => keyLt a b = true) ∧
-    (∀ k, k ∈ bal.map (·.key) ↔
-      C02.Posted (postsOf (ts.filter tf)) k ∨ C02.ProperAncestor (postsOf (ts.filter tf)) k) ∧
-    (∀ row ∈ bal, row.own.units = C02.ownSum (postsOf (ts.filter tf)) row.key ∧
-                  row.tree.units = C02.treeSum (postsOf (ts.filter tf)) row.key) := by
-  have hwf := text_postsWF_filter cfg st st' text ts h tf
+    (∀ k, k ∈ bal.map (·.key) ↔ C02.Posted (postsOf txns) k ∨ C02.ProperAncestor (postsOf txns) k) ∧
+    (∀ row ∈ bal, row.own.units = C02.ownSum (postsOf txns) row.key ∧
+                  row.tree.units = C02.treeSum (postsOf txns) row.key) := by
+  have hwf := text_postsWF_sel cfg st st' text ts h txns hsel
   obtain ⟨h1, h2⟩ := C02.rows_exact sb _ hwf bal hb
   exact ⟨h1, h2, fun row hrow => ⟨C02.own_sum sb _ hwf bal hb row hrow, C02.tree_sum_posts sb _ hwf bal hb row hrow⟩⟩
 
@@ -197,34 +202,66 @@ theorem text_balance_exact (cfg : Time.TsCfg) (st st' : Settings) (text : List C
     exactly one delta line per commodity that has a listed row, in strictly increasing commodity order, and each
     delta is the exact sum of the listed rows' own sums in that commodity. -/
 theorem text_balance_deltas (cfg : Time.TsCfg) (st st' : Settings) (text : List Char) (ts : List Txn)
-    (h : loadText cfg st text = .ok (ts, st')) (tf : Txn → Bool) (sb : Settings) (sel : BalRow → Bool) (b : Balance)
-    (hb : fromIter sb sel (postsOf (ts.filter tf)) = .ok b) :
-    (∃ bal, balance sb (postsOf (ts.filter tf)) = .ok bal ∧ b.rows = bal.filter sel) ∧
+    (h : loadText cfg st text = .ok (ts, st')) (txns : List Txn) (hsel : ∀ t ∈ txns, t ∈ ts)
+    (sb : Settings) (sel : BalRow → Bool) (b : Balance) (hb : fromIter sb sel (postsOf txns) = .ok b) :
+    (∃ bal, balance sb (postsOf txns) = .ok bal ∧ b.rows = bal.filter sel) ∧
     (b.deltas.map (·.1)).Pairwise (· < ·) ∧
     (∀ c, c ∈ b.deltas.map (·.1) ↔ ∃ r ∈ b.rows, r.comm = c) ∧
     (∀ cd ∈ b.deltas, cd.2.units = ((b.rows.filter (fun r => decide (r.comm = cd.1))).map (·.own.units)).sum) :=
-  C02.delta_eq sb sel _ (text_postsWF_filter cfg st st' text ts h tf) b hb
+  C02.delta_eq sb sel _ (text_postsWF_sel cfg st st' text ts h txns hsel) b hb
 
 /-- **text_delta_zero** (`C02.delta_zero` end to end): with all accounts listed and no posting priced into another
     commodity, every delta of the report is zero — balancedness (C01) and `PostsWF` are no longer hypotheses. -/
 theorem text_delta_zero (cfg : Time.TsCfg) (st st' : Settings) (text : List Char) (ts : List Txn)
-    (h : loadText cfg st text = .ok (ts, st')) (tf : Txn → Bool) (sb : Settings)
-    (hnp : ∀ t ∈ ts.filter tf, ∀ p ∈ t.posts, p.comm = p.txnComm)
-    (b : Balance) (hb : fromIter sb (fun _ => true) (postsOf (ts.filter tf)) = .ok b) :
+    (h : loadText cfg st text = .ok (ts, st')) (txns : List Txn) (hsel : ∀ t ∈ txns, t ∈ ts) (sb : Settings)
+    (hnp : ∀ t ∈ txns, ∀ p ∈ t.posts, p.comm = p.txnComm)
+    (b : Balance) (hb : fromIter sb (fun _ => true) (postsOf txns) = .ok b) :
     ∀ cd ∈ b.deltas, cd.2.units = 0 :=
-  C02.delta_zero sb (ts.filter tf) (text_postsWF_filter cfg st st' text ts h tf)
-    (fun t ht => text_accept_balanced cfg st st' text ts h t (List.mem_filter.mp ht).1) hnp b hb
+  C02.delta_zero sb txns (text_postsWF_sel cfg st st' text ts h txns hsel)
+    (fun t ht => text_accept_balanced cfg st st' text ts h t (hsel t ht)) hnp b hb
+
+/-- a transaction accepted from a parse tree without `@` / `=` positions has every posting in its own commodity -/
+theorem accepted_unpriced (st st' : Settings) (r : RawTxn) (t : Txn) (h : acceptTxn st r = .ok (t, st'))
+    (hnc : ∀ rp ∈ r.posts, ∀ u, rp.unit = some u → u.closing = none) :
+    ∀ p ∈ t.posts, p.comm = p.txnComm := by
+  obtain ⟨_, s1, hps⟩ := C06.acceptTxn_posts st st' r t h
+  intro p hp
+  rcases C06.acceptPostings_inv s1 st' r.posts r.last t.posts hps p hp with ⟨rp, hrp, sa, sb, hh⟩ | ⟨hc, _⟩
+  · obtain ⟨s2, vp, a, _, hv, _, hmk⟩ := (C12.handlePosting_ok _ _ _ _).mp hh
+    have e := C12.mkPosting_eq _ _ hmk
+    subst e
+    rcases (C01.valuePosition_spec _ _ _ hv).2 with ⟨hc, _⟩ | ⟨_, u, hu, _, hcase⟩
+    · exact hc
+    · have hn := hnc rp hrp u hu
+      rcases hcase with ⟨v, hcl, _⟩ | ⟨v, hcl, _⟩
+      · rw [hn] at hcl; cases hcl
+      · rw [hn] at hcl; cases hcl
+  · exact hc.symm
+
+/-- **text_delta_zero_unpriced**: the premise of `text_delta_zero` read off the text: if no posting line of the
+    text has a closing position (`@` unit price or `=` total), every delta of the full balance report is zero. -/
+theorem text_delta_zero_unpriced (cfg : Time.TsCfg) (st st' : Settings) (text : List Char) (ts : List Txn)
+    (h : loadText cfg st text = .ok (ts, st')) (txns : List Txn) (hsel : ∀ t ∈ txns, t ∈ ts) (sb : Settings)
+    (hnc : ∀ rs, parseJournal cfg text = some rs →
+      ∀ r ∈ rs, ∀ rp ∈ r.posts, ∀ u, rp.unit = some u → u.closing = none)
+    (b : Balance) (hb : fromIter sb (fun _ => true) (postsOf txns) = .ok b) :
+    ∀ cd ∈ b.deltas, cd.2.units = 0 := by
+  obtain ⟨rs, hp, _, horig⟩ := text_txn_origin cfg st st' text ts h
+  apply text_delta_zero cfg st st' text ts h txns hsel sb _ b hb
+  intro t ht
+  obtain ⟨r, hr, _, _, s1, s2, hf⟩ := horig t (hsel t ht)
+  exact accepted_unpriced s1 s2 r t hf (hnc rs hp r hr)
 
 /-- the ancestors of every account posted to are known to the settings a load leaves behind -/
 theorem text_parents_known (cfg : Time.TsCfg) (st st' : Settings) (text : List Char) (ts : List Txn)
     (hcl : if st.strict then C12.AncClosed2 st.accounts st.synthetic else C12.AncClosed st.accounts)
-    (h : loadText cfg st text = .ok (ts, st')) (tf : Txn → Bool) :
-    ∀ p ∈ postsOf (ts.filter tf), ∀ q : Path, q ≠ [] → q <+: p.acct → q ≠ p.acct →
+    (h : loadText cfg st text = .ok (ts, st')) (txns : List Txn) (hsel : ∀ t ∈ txns, t ∈ ts) :
+    ∀ p ∈ postsOf txns, ∀ q : Path, q ≠ [] → q <+: p.acct → q ≠ p.acct →
       ∃ r, st'.getTxnAccount q p.comm = .ok r := by
   obtain ⟨rs, acc, _, _, _, hacc, rfl, _⟩ := load_inv cfg st st' text ts h
   intro p hp q hq hpre _
   obtain ⟨t, ht, x, hx, rfl⟩ := (mem_postsOf _ p).mp hp
-  have ht' : t ∈ acc := (mem_sortTxns acc t).mp (List.mem_filter.mp ht).1
+  have ht' : t ∈ acc := (mem_sortTxns acc t).mp (hsel t ht)
   exact ⟨_, C12.report_parents_ok st st' rs acc hcl hacc t ht' x hx q ⟨hq, hpre⟩⟩
 
 /-- **text_balance_never_errs_closed**: after a successful load from settings whose chart of accounts is
@@ -233,18 +270,266 @@ theorem text_parents_known (cfg : Time.TsCfg) (st st' : Settings) (text : List C
     selection of the loaded transactions.  (It may still be outside the exact numeric domain: `.undef`.) -/
 theorem text_balance_never_errs_closed (cfg : Time.TsCfg) (st st' : Settings) (text : List Char) (ts : List Txn)
     (hcl : if st.strict then C12.AncClosed2 st.accounts st.synthetic else C12.AncClosed st.accounts)
-    (h : loadText cfg st text = .ok (ts, st')) (tf : Txn → Bool) :
-    balance st' (postsOf (ts.filter tf)) ≠ .err :=
-  C02.balance_ok_of_closed st' _ (text_postsWF_filter cfg st st' text ts h tf)
-    (text_parents_known cfg st st' text ts hcl h tf)
+    (h : loadText cfg st text = .ok (ts, st')) (txns : List Txn) (hsel : ∀ t ∈ txns, t ∈ ts) :
+    balance st' (postsOf txns) ≠ .err :=
+  C02.balance_ok_of_closed st' _ (text_postsWF_sel cfg st st' text ts h txns hsel)
+    (text_parents_known cfg st st' text ts hcl h txns hsel)
 
 /-- **C02 end to end — `text_balance_never_errs`.**  Settings built from a configuration (`Settings.ofConfig`, any
-    switches, any charts), any text that loads, any transaction filter: `Balance::balance` does not fail. -/
+    switches, any charts), any text that loads, any selection of its transactions: `Balance::balance` run with
+    the settings after the load does not fail. -/
 theorem text_balance_never_errs (cfg : Time.TsCfg) (strict audit pe : Bool) (accts : List Path)
     (comms tags : List String) (st' : Settings) (text : List Char) (ts : List Txn)
-    (h : loadText cfg (Settings.ofConfig strict audit pe accts comms tags) text = .ok (ts, st')) (tf : Txn → Bool) :
-    balance st' (postsOf (ts.filter tf)) ≠ .err :=
-  text_balance_never_errs_closed cfg _ st' text ts (C12.ofConfig_closed strict audit pe accts comms tags) h tf
+    (h : loadText cfg (Settings.ofConfig strict audit pe accts comms tags) text = .ok (ts, st'))
+    (txns : List Txn) (hsel : ∀ t ∈ txns, t ∈ ts) : balance st' (postsOf txns) ≠ .err :=
+  text_balance_never_errs_closed cfg _ st' text ts (C12.ofConfig_closed strict audit pe accts comms tags) h txns hsel
+
+/-! ## 3. C03 — register of a loaded text: canonical order, exact running totals -/
+
+/-- a loaded text is in canonical order, and so is what a filter keeps of it -/
+theorem text_sorted (cfg : Time.TsCfg) (st st' : Settings) (text : List Char) (ts : List Txn)
+    (h : loadText cfg st text = .ok (ts, st')) (tf : Txn → Bool) :
+    ts.Pairwise (fun a b => txnLe a b = true) ∧ (ts.filter tf).Pairwise (fun a b => txnLe a b = true) := by
+  obtain ⟨_, acc, _, _, _, _, rfl, _⟩ := load_inv cfg st st' text ts h
+  exact ⟨sortTxns_sorted acc, (sortTxns_sorted acc).sublist List.filter_sublist⟩
+
+theorem text_txnsWF_sel (cfg : Time.TsCfg) (st st' : Settings) (text : List Char) (ts : List Txn)
+    (h : loadText cfg st text = .ok (ts, st')) (txns : List Txn) (hsel : ∀ t ∈ txns, t ∈ ts) : C03.TxnsWF txns :=
+  fun t ht => text_txnsWF cfg st st' text ts h t (hsel t ht)
+
+/-- **C03 end to end — `text_register_exact`.**  The register report without account selector over any selection
+    of the transactions of a loaded text, whenever the engine answers: one entry per transaction, in the order
+    given; entry `i` lists the postings of transaction `i` in `sortedPosts` order and row `j` shows the exact sum
+    of all postings to the same (commodity, account) in the transactions before `i` plus those of transaction `i`
+    at in-entry positions `≤ j`; every posted (commodity, account) has a last row, and the last running total
+    shown for it is the exact sum of all its postings — the balance report's account sum.  No `TxnsWF` hypothesis. -/
+theorem text_register_exact (cfg : Time.TsCfg) (st st' : Settings) (text : List Char) (ts : List Txn)
+    (h : loadText cfg st text = .ok (ts, st')) (txns : List Txn) (hsel : ∀ t ∈ txns, t ∈ ts)
+    (es : List RegEntry) (hr : register selAll txns = .ok es) :
+    es.map (·.txn) = txns ∧
+    (∀ i e, es[i]? = some e → ∃ t, txns[i]? = some t ∧ e.txn = t ∧ e.rows.length = t.posts.length ∧
+      ∀ j r, e.rows[j]? = some r → ∃ p, (C03.sortedPosts t)[j]? = some p ∧ r.post = p ∧ r.comm = p.comm ∧
+        r.total.units = C03.postSum p.acctnKey ((txns.take i).flatMap (·.posts))
+                          + C03.postSum p.acctnKey ((C03.sortedPosts t).take (j + 1))) ∧
+    (∀ k, (∃ p ∈ postsOf txns, p.key = k) → ∃ r, C03.lastRow k (es.flatMap (·.rows)) = some r) ∧
+    (∀ k r, C03.lastRow k (es.flatMap (·.rows)) = some r → r.total.units = C03.ownSpec txns k) := by
+  have hwf := text_txnsWF_sel cfg st st' text ts h txns hsel
+  exact ⟨(C03.register_order selAll txns es hr).1, (C03.running_total txns es hwf hr).2,
+    fun k hk => C03.last_total_exists txns es hr k hk,
+    fun k r hl => C03.last_total_balance txns es hwf hr k r hl⟩
+
+/-- **text_register_selected**: with any account selector the entries are those of the unselected report with the
+    rejected rows hidden (`selector_only_hides`), and every shown row carries the exact prefix sum of
+    `text_register_exact` — hidden postings are accumulated all the same. -/
+theorem text_register_selected (cfg : Time.TsCfg) (st st' : Settings) (text : List Char) (ts : List Txn)
+    (h : loadText cfg st text = .ok (ts, st')) (txns : List Txn) (hsel : ∀ t ∈ txns, t ∈ ts)
+    (sel : RegRow → Bool) (es : List RegEntry) (hr : register sel txns = .ok es) :
+    (∃ es0, register selAll txns = .ok es0 ∧ es = es0.map (C03.hide sel)) ∧
+    es.length = txns.length ∧
+    ∀ i e, es[i]? = some e → ∃ t, txns[i]? = some t ∧ e.txn = t ∧
+      ∀ r ∈ e.rows, sel r = true ∧ ∃ j p, (C03.sortedPosts t)[j]? = some p ∧ r.post = p ∧ r.comm = p.comm ∧
+        r.total.units = C03.postSum p.acctnKey ((txns.take i).flatMap (·.posts))
+                          + C03.postSum p.acctnKey ((C03.sortedPosts t).take (j + 1)) := by
+  have hwf := text_txnsWF_sel cfg st st' text ts h txns hsel
+  refine ⟨?_, C03.running_total_selected sel txns es hwf hr⟩
+  have := hr
+  rw [C03.selector_only_hides, Outcome.map_ok] at this
+  obtain ⟨es0, h0, e⟩ := this
+  exact ⟨es0, h0, e.symm⟩
+
+/-! ## 4. C10 — equity export of a loaded text -/
+
+/-- **C10 end to end — `text_equity`.**  The equity export over any selection `txns` of the transactions of a loaded
+    text, whenever the exporter answers:
+    * (shape) one transaction per commodity with a selected non-zero row, in strictly increasing commodity order,
+      dated at the last selected transaction, whose postings are exactly the selected rows with their own sums,
+      then the balancing posting iff the sum is not zero (`C10.IsEquityTxn`);
+    * (accepts) every generated transaction is accepted under lax settings and is `C01.Balanced`;
+    * (carries) if the equity account is not itself selected, then after re-loading the export every selected
+      non-zero (commodity, account) has the same own sum as in the source, and that is the figure its balance row
+      shows.
+    `TxnsWF`, and the two facts of the balance kernel that `C10.equity_carries` takes as hypotheses, are discharged
+    (`text_txnsWF`, `C02.own_sum`, `C02.rows_nodup` with `text_postsWF`). -/
+theorem text_equity (cfg : Time.TsCfg) (st st' : Settings) (text : List Char) (ts : List Txn)
+    (h : loadText cfg st text = .ok (ts, st')) (txns : List Txn) (hsel : ∀ t ∈ txns, t ∈ ts)
+    (sb : Settings) (acc : Option (Path → Bool)) (eqa : Path) (md : List String) (out : List EqTxn)
+    (he : equityExport sb acc eqa md txns = .ok out) :
+    (∃ all cs, balance sb (postsOf txns) = .ok all ∧
+      cs.Pairwise (· < ·) ∧ (∀ c, c ∈ cs ↔ ∃ r ∈ C10.selRows acc all, r.comm = c) ∧
+      C10.Forall2 (fun c t => ∃ last, txns.getLast? = some last ∧
+                 C10.IsEquityTxn eqa last.header md (C10.selRows acc all) c t) cs out) ∧
+    (∀ s1, C10.Lax s1 → ∀ t ∈ out, ∃ s2, acceptTxn s1 t.toRaw = .ok (C10.toTxn t, s2) ∧ C10.Lax s2 ∧
+      C01.Balanced (C10.toTxn t)) ∧
+    (∀ all, balance sb (postsOf txns) = .ok all → (∀ r ∈ C10.selRows acc all, r.acct ≠ eqa) →
+      ∀ s1 s2 ts', C10.Lax s1 → loadJournal s1 (out.map EqTxn.toRaw) = .ok (ts', s2) →
+        ∀ r ∈ C10.selRows acc all,
+          C10.ownSpec (postsOf ts') r.key = C10.ownSpec (postsOf txns) r.key ∧
+          r.own.units = C10.ownSpec (postsOf txns) r.key) := by
+  have hwf : C10.TxnsWF txns := text_txnsWF_sel cfg st st' text ts h txns hsel
+  have hpw := text_postsWF_sel cfg st st' text ts h txns hsel
+  refine ⟨C10.equity_shape sb acc eqa md txns out hwf he,
+    fun s1 hl => C10.equity_accepts sb acc eqa md txns out hwf he s1 hl, ?_⟩
+  intro all hall heqa s1 s2 ts' hl hre r hr
+  have hown : ∀ r ∈ all, r.own.units = C10.ownSpec (postsOf txns) r.key :=
+    fun r hr => C02.own_sum sb _ hpw all hall r hr
+  exact ⟨C10.equity_carries sb acc eqa md txns out he all hall hown (C02.rows_nodup sb _ hpw all hall) heqa
+    s1 s2 hl ts' hre r hr, hown r (List.mem_filter.mp hr).1⟩
+
+/-! ## 5. C13 — balance groups of a loaded text -/
+
+/-- **C13 end to end — `text_groups`.**  The balance-group report (any key function: every group-by setting, every
+    report zone) over any selection `txns` of the transactions of a loaded text, whenever it answers:
+    the group candidates partition `txns` (`group_partition`); the printed titles are strictly ascending; a printed
+    group is the candidate of its title, its figures are `Balance::from_iter` of its members' postings, and in it
+    every row's own / tree sum is the exact sum of the *members'* postings to / at or below its pair, the rows are
+    the selected ones among the pairs the members post to and their ancestors, each once, with one exact delta per
+    listed commodity.  No `PostsWF` hypothesis. -/
+theorem text_groups (cfg : Time.TsCfg) (st st' : Settings) (text : List Char) (ts : List Txn)
+    (h : loadText cfg st text = .ok (ts, st')) (txns : List Txn) (hsel : ∀ t ∈ txns, t ∈ ts)
+    (sb : Settings) (sel : BalRow → Bool) (key : Txn → String) (gs : List BalGroup)
+    (hg : balanceGroupsBy sb sel key txns = .ok gs) :
+    ((((groupCandidates key txns).map (·.2)).flatten).Perm txns ∧
+      (∀ t ∈ txns, ∃ kg ∈ groupCandidates key txns, t ∈ kg.2 ∧ kg.1 = key t ∧
+        ∀ kg' ∈ groupCandidates key txns, t ∈ kg'.2 → kg' = kg)) ∧
+    (gs.map (·.title)).Pairwise (· < ·) ∧
+    ∀ g ∈ gs, ∃ members bal, members = txns.filter (fun t => decide (key t = g.title)) ∧
+      (g.title, members) ∈ groupCandidates key txns ∧
+      fromIter sb sel (postsOf members) = .ok g.bal ∧ g.bal.rows ≠ [] ∧
+      balance sb (postsOf members) = .ok bal ∧ g.bal.rows = bal.filter sel ∧
+      (∀ k, k ∈ bal.map (·.key) ↔ C02.Posted (postsOf members) k ∨ C02.ProperAncestor (postsOf members) k) ∧
+      (bal.map (·.key)).Nodup ∧
+      (∀ row ∈ g.bal.rows, row.own.units = C02.ownSum (postsOf members) row.key ∧
+                           row.tree.units = C02.treeSum (postsOf members) row.key) ∧
+      (g.bal.deltas.map (·.1)).Pairwise (· < ·) ∧
+      (∀ c, c ∈ g.bal.deltas.map (·.1) ↔ ∃ r ∈ g.bal.rows, r.comm = c) ∧
+      (∀ cd ∈ g.bal.deltas,
+        cd.2.units = ((g.bal.rows.filter (fun r => decide (r.comm = cd.1))).map (·.own.units)).sum) := by
+  have hwf := text_postsWF_sel cfg st st' text ts h txns hsel
+  obtain ⟨hperm, _, hone, _⟩ := C13.group_partition key txns
+  refine ⟨⟨hperm, hone⟩, C13.group_keys sb sel key txns gs hg, ?_⟩
+  intro g hgm
+  obtain ⟨members, hcand, hm, hfi, hne⟩ := C13.group_figures sb sel key txns gs hg g hgm
+  obtain ⟨bal, hbal, hrows, hkeys, hnd, hd1, hd2, hd3⟩ := C13.group_rows_deltas sb sel key txns hwf gs hg g hgm
+  subst hm
+  exact ⟨_, bal, rfl, hcand, hfi, hne, hbal, hrows, hkeys, hnd,
+    C13.group_own_tree_sums sb sel key txns hwf gs hg g hgm, hd1, hd2, hd3⟩
+
+/-- **text_groups_total**: every posting counts in exactly one group — for every (commodity, account) pair the
+    members' sums over the group candidates add up to the sum over `txns`, and, for a pair the selector lists, the
+    own sums shown by the printed groups add up to the own sum shown by the overall balance report. -/
+theorem text_groups_total (cfg : Time.TsCfg) (st st' : Settings) (text : List Char) (ts : List Txn)
+    (h : loadText cfg st text = .ok (ts, st')) (txns : List Txn) (hsel : ∀ t ∈ txns, t ∈ ts)
+    (sb : Settings) (sel : BalRow → Bool) (key : Txn → String) (k : AKey) :
+    ((groupCandidates key txns).map (fun kg => C02.ownSum (postsOf kg.2) k)).sum = C02.ownSum (postsOf txns) k ∧
+    ∀ gs b, balanceGroupsBy sb sel key txns = .ok gs → fromIter sb sel (postsOf txns) = .ok b →
+      (∀ r : BalRow, r.key = k → sel r = true) →
+      (gs.map (fun g => C13.rowOwn g.bal.rows k)).sum = C13.rowOwn b.rows k :=
+  ⟨C13.group_total key txns k, fun gs b hg hb hs =>
+    C13.group_total_rows sb sel key txns (text_postsWF_sel cfg st st' text ts h txns hsel) gs hg b hb k hs⟩
+
+/-- **text_groups_never_err**: `Balance::from_iter(…).expect(…)` inside `balance_groups` is the one panic site of
+    the report; after a load from settings built from a configuration it is not reached (the model never answers
+    `.err`), for any key function and any selection of the loaded transactions. -/
+theorem text_groups_never_err (cfg : Time.TsCfg) (strict audit pe : Bool) (accts : List Path)
+    (comms tags : List String) (st' : Settings) (text : List Char) (ts : List Txn)
+    (h : loadText cfg (Settings.ofConfig strict audit pe accts comms tags) text = .ok (ts, st'))
+    (txns : List Txn) (hsel : ∀ t ∈ txns, t ∈ ts) (sel : BalRow → Bool) (key : Txn → String) :
+    balanceGroupsBy st' sel key txns ≠ .err :=
+  C13.no_panic st' sel key txns (text_postsWF_sel cfg _ st' text ts h txns hsel)
+    (text_parents_known cfg _ st' text ts (C12.ofConfig_closed strict audit pe accts comms tags) h txns hsel)
+
+/-! ## 6. C09 — uuids of a loaded text are canonical; the hashed message determines the set -/
+
+/-- **text_uuid_no_newline**: every uuid of a loaded transaction is the canonical text the grammar produces —
+    36 characters, `8-4-4-4-12` lower-case hex digits (`UuidWF`) — so it contains no newline and `Uuid::to_string`
+    is the identity on it. -/
+theorem text_uuid_no_newline (cfg : Time.TsCfg) (st st' : Settings) (text : List Char) (ts : List Txn)
+    (h : loadText cfg st text = .ok (ts, st')) :
+    ∀ t ∈ ts, ∀ u, t.header.uuid = some u →
+      UuidWF u.toList ∧ u.toList.length = 36 ∧ '\n' ∉ u.toList ∧ uuidToString u = u := by
+  obtain ⟨rs, _, _, horig⟩ := text_txn_origin cfg st st' text ts h
+  intro t ht u hu
+  obtain ⟨r, _, _, hlex, s1, s2, hf⟩ := horig t ht
+  have hh : t.header = r.header := (C06.acceptTxn_posts s1 s2 r t hf).1
+  have hw := hlex.uuid u (by rw [← hh]; exact hu)
+  exact ⟨hw, uuidWF_length _ hw, uuidWF_no_newline _ hw, uuidToString_canonical u hw⟩
+
+/-- the hashed uuid texts of any selection of a loaded text contain no newline -/
+theorem text_uuidsOf_no_newline (cfg : Time.TsCfg) (st st' : Settings) (text : List Char) (ts : List Txn)
+    (h : loadText cfg st text = .ok (ts, st')) (txns : List Txn) (hsel : ∀ t ∈ txns, t ∈ ts) :
+    ∀ u ∈ C09.uuidsOf txns, '\n' ∉ u.toList := by
+  intro u hu
+  simp only [C09.uuidsOf, List.mem_filterMap, Option.map_eq_some_iff] at hu
+  obtain ⟨t, ht, u0, hu0, rfl⟩ := hu
+  obtain ⟨_, _, hnl, hcan⟩ := text_uuid_no_newline cfg st st' text ts h t (hsel t ht) u0 hu0
+  rw [hcan]; exact hnl
+
+/-- **C09 end to end — `text_checksum_determines_set`.**  Two selections of transactions of two loaded texts (the
+    same or different ones, any settings): equal hashed messages ⇒ equal multisets of selected uuids.  The side
+    condition of `C09.preimage_injective` (no newline in a uuid text) is a theorem for everything that was loaded
+    from text.  Together with collision resistance of the hash — a cryptographic assumption — this is "the
+    checksum differs whenever the selected set differs". -/
+theorem text_checksum_determines_set (cfga cfgb : Time.TsCfg) (sta sta' stb stb' : Settings)
+    (texta textb : List Char) (tsa tsb : List Txn)
+    (ha : loadText cfga sta texta = .ok (tsa, sta')) (hb : loadText cfgb stb textb = .ok (tsb, stb'))
+    (a b : List Txn) (hsa : ∀ t ∈ a, t ∈ tsa) (hsb : ∀ t ∈ b, t ∈ tsb)
+    (heq : C09.preimage a = C09.preimage b) : (C09.uuidsOf a).Perm (C09.uuidsOf b) :=
+  C09.preimage_injective a b (text_uuidsOf_no_newline cfga sta sta' texta tsa ha a hsa)
+    (text_uuidsOf_no_newline cfgb stb stb' textb tsb hb b hsb) heq
+
+/-- **text_equal_checksum_is_collision**: if two selections of loaded transactions with different uuid multisets
+    get the same checksum text, their hashed messages are an explicit collision of the configured hash function. -/
+theorem text_equal_checksum_is_collision (cfga cfgb : Time.TsCfg) (sta sta' stb stb' : Settings)
+    (texta textb : List Char) (tsa tsb : List Txn)
+    (ha : loadText cfga sta texta = .ok (tsa, sta')) (hb : loadText cfgb stb textb = .ok (tsb, stb'))
+    (a b : List Txn) (hsa : ∀ t ∈ a, t ∈ tsa) (hsb : ∀ t ∈ b, t ∈ tsb)
+    (alg : Hash.Algo) (ca cb : Hash.Checksum)
+    (hca : calcTxnChecksum a alg = .ok ca) (hcb : calcTxnChecksum b alg = .ok cb)
+    (hne : ¬ (C09.uuidsOf a).Perm (C09.uuidsOf b)) (heq : ca.value = cb.value) :
+    C09.preimage a ≠ C09.preimage b ∧ alg.digest (C09.preimage a) = alg.digest (C09.preimage b) :=
+  C09.equal_checksum_is_collision alg a b ca cb hca hcb
+    (text_uuidsOf_no_newline cfga sta sta' texta tsa ha a hsa)
+    (text_uuidsOf_no_newline cfgb stb stb' textb tsb hb b hsb) hne heq
+
+/-! ## 7. C04 — the order in which a text supplies its transactions is immaterial -/
+
+/-- **C04 end to end — `text_order_free`.**  Two texts whose parse trees are permutations of each other (the same
+    transactions written in another order), loaded from the same settings: both load or both fail; when they load,
+    the loaded lists are permutations of each other, *equal* when the transactions are pairwise distinguishable by
+    (instant, code, description, uuid) = `hdrKey`, and — from an ancestor-closed chart in lax mode, as
+    `Settings.ofConfig` builds it — the settings after the load have the same switches and the same charts as sets. -/
+theorem text_order_free (cfga cfgb : Time.TsCfg) (st : Settings) (ta tb : List Char) (ra rb : List RawTxn)
+    (hpa : parseJournal cfga ta = some ra) (hpb : parseJournal cfgb tb = some rb) (hp : ra.Perm rb) :
+    (loadText cfga st ta).isOk = (loadText cfgb st tb).isOk ∧
+    ∀ la sa lb sb, loadText cfga st ta = .ok (la, sa) → loadText cfgb st tb = .ok (lb, sb) →
+      la.Perm lb ∧
+      ((∀ a b, a ∈ ra → b ∈ ra → hdrKey a.header = hdrKey b.header → a = b) → la = lb) ∧
+      ((st.strict = false → C12.AncClosed st.accounts) →
+        AcceptOrder.SameCharts sa sb ∧
+        (st.strict = false → C12.AncClosed sa.accounts ∧ C12.AncClosed sb.accounts)) := by
+  rw [AcceptOrder.loadText_eq cfga ta ra st hpa (parseJournal_lex cfga ta ra hpa).1,
+    AcceptOrder.loadText_eq cfgb tb rb st hpb (parseJournal_lex cfgb tb rb hpb).1]
+  have := C04.shards_free st [ra] [rb] (by simpa using hp)
+  simpa using this
+
+/-- **text_order_free_values**: … and when the transactions are *not* distinguishable (the loaded lists are then
+    only permutations of each other) every balance figure still agrees: the same rows in the same order, the same
+    own and tree sums as numbers, and through an account selector that looks at the (commodity, account) key only,
+    the same delta lines.  `C04.values_perm` / `report_values_perm` with `PostsWF` discharged. -/
+theorem text_order_free_values (cfga cfgb : Time.TsCfg) (st : Settings) (ta tb : List Char) (ra rb : List RawTxn)
+    (hpa : parseJournal cfga ta = some ra) (hpb : parseJournal cfgb tb = some rb) (hp : ra.Perm rb)
+    (la lb : List Txn) (sa sb : Settings)
+    (hla : loadText cfga st ta = .ok (la, sa)) (hlb : loadText cfgb st tb = .ok (lb, sb)) (s1 s2 : Settings) :
+    (∀ bal bal', balance s1 (postsOf la) = .ok bal → balance s2 (postsOf lb) = .ok bal' →
+      bal.map C04.rowVal = bal'.map C04.rowVal) ∧
+    (∀ (sel : BalRow → Bool), (∀ r r' : BalRow, r.key = r'.key → sel r = sel r') →
+      ∀ b b', fromIter s1 sel (postsOf la) = .ok b → fromIter s2 sel (postsOf lb) = .ok b' →
+        b.rows.map C04.rowVal = b'.rows.map C04.rowVal ∧ b.deltas.map C04.deltaVal = b'.deltas.map C04.deltaVal) := by
+  have hperm : la.Perm lb := ((text_order_free cfga cfgb st ta tb ra rb hpa hpb hp).2 la sa lb sb hla hlb).1
+  have hwf := text_postsWF cfga st sa ta la hla
+  exact ⟨fun bal bal' h1 h2 => C04.load_values_perm s1 s2 la lb hperm hwf bal bal' h1 h2,
+    fun sel hsel b b' h1 h2 =>
+      C04.report_values_perm s1 s2 sel hsel _ _ (C04.postsOf_perm la lb hperm) hwf b b' h1 h2⟩
 
 end E2E
 end Tackler
